@@ -1066,14 +1066,12 @@ fn run_slices(len: usize, ys: &[u64]) -> Vec<Limbs> {
 
 fn div_cases(l: &mut Local, n: &Limbs, d: &Limbs) {
     use k::Op as K;
-    if n.is_empty() || d.is_empty() {
-        return;
-    }
     let bd = big(d);
     l.states(1);
     let (nv, dv) = (vu(n), vu(d));
+    // slices of length 0 included: an empty numerator is zero (q, r) = (0, 0), an empty divisor is a zero divisor
     k::exec(l, 0, K::div, &[nv.clone(), dv.clone()]);
-    if bd.is_zero() {
+    if bd.is_zero() || n.is_empty() || d.is_empty() {
         return;
     }
     // specialised kernels on the sub-universe satisfying their documented preconditions
@@ -1129,12 +1127,12 @@ fn c14(r: &Runner) {
     let ys: &[u64] = if r.is_thorough() { &[0, 1, 2, 1 << 63, (1 << 63) + 1, u64::MAX - 1, u64::MAX] } else { &[0, 1, 1 << 63, u64::MAX] };
     let by_len: Vec<Vec<Limbs>> = (0..=12).map(|n| run_slices(n, ys)).collect();
     let mut pairs: Vec<(usize, usize)> = vec![];
-    for nl in 1..=12 {
-        for dl in 1..=12 {
+    for nl in 0..=12 {
+        for dl in 0..=12 {
             pairs.push((nl, dl));
         }
     }
-    r.universe("div: run-shaped slices, every length pair 1..=12 x 1..=12", 0, pairs.len(), |i, l| {
+    r.universe("div: run-shaped slices, every length pair 0..=12 x 0..=12", 0, pairs.len(), |i, l| {
         let (nl, dl) = pairs[i];
         for n in &by_len[nl] {
             for d in &by_len[dl] {
